@@ -1,7 +1,13 @@
 mod rng;
 mod coqfmt;
 mod e2e;
+mod gen_prog;
+mod reftrace;
+mod leg_c10;
+mod dap;
+mod leg_c12;
 mod leg_c14;
+mod leg_c01;
 mod leg_c05;
 mod leg_c15;
 mod leg_c17;
@@ -20,6 +26,9 @@ fn main() {
         "c14-e2e" => leg_c14::run_e2e(rest),
         "c15-e2e" => leg_c15::run(rest),
         "c05-e2e" => leg_c05::run(rest),
+        "c10-e2e" => leg_c10::run(rest),
+        "c12-e2e" => leg_c12::run(rest),
+        "c01-e2e" => leg_c01::run(rest),
         "dbg" => dbg_tmp::run(rest),
         other => {
             eprintln!("unknown leg {other}");
